@@ -15,7 +15,8 @@ EXPLANATION = ("Exception containment in the backend. R1: between prepare_read a
                "the dispatch path is contained by a catch-all on every call chain from the poll loop. R4: _poll() is called inside "
                "try + catch-all inside the worker loop and in poll_one; every handler of the backend reports through the error "
                "notifier except the one named swallow. R5: 'backtrace without init' is a throw inside the per-event try."
-               " R8: an undefined error_notifier (documented: disables notifications) is replaced by a callable in _init or every call is guarded (found the tree's fourteenth defect). R9 (= C19.R2): the named-args list is sized by the names. R10: QuillError owns its text. R11: every handler of the formatting try clears the message, appends the error text and reports it, in this order.")
+               " R8: an undefined error_notifier (documented: disables notifications) is replaced by a callable in _init or every call is guarded (found the tree's fourteenth defect). R9 (= C19.R2): the named-args list is sized by the names. R10: QuillError owns its text. R11: every handler of the formatting try clears the message, appends the error text and reports it, in this order."
+               " R14: every call that hands _file to the C library lies behind the 'file is open' outcome of a test of _file, in the function or at each of its call sites. R15 (= C18.R2k): each statement replayed from the backtrace ring is dispatched under its own catch-all. R16 (= C12.R9): the cut of a run-time-metadata text has the accepted shape (another shape is not decided). R17 (= C14.R1h): a failed write is decided from what that very fwrite returned.")
 NOT_DECIDED = ("The text of the error message; 'at most that one statement is missing from that sink and the sinks after it' as a "
                "count; exceptions thrown by user copy constructors during decoding.")
 ASSUMPTIONS = ["exceptions enabled (QUILL_NO_EXCEPTIONS not defined)", "the user's error_notifier itself does not throw"]
